@@ -11,6 +11,7 @@ from ..px import OK, PX, RAISE, Outcomes
 from ..pxv import Obj, Sym
 from ..te import ClassRef, FuncRef, Member, TypeRef
 from .ash_link import ASH, ash_cls, dispatch_classes, frame_obj, inline_ash, upward
+from .util import anchor_attrs
 from .util import const, fut, self_obj, text, who_may_call
 
 # ------------------------------------------------------------------ specification (UG101), written independently
@@ -419,6 +420,7 @@ def r03_8(ctx):
     """_write_frame emits bytes(prefix) ++ STUFF(frame.to_bytes()) ++ FLAG: stuffing covers control byte, payload
     and CRC (checked for every ACK/NAK, every DATA header with reserved-rich payloads); send_reset emits
     CANCEL + stuffed RST + FLAG."""
+    anchor_attrs(ctx, "AshProtocol", "_transport")
     repo = ctx.repo
     cls = ash_cls(ctx)
     px = PX(repo, inline=lambda f, aw: not f.is_async, models=[("binascii.crc_hqx", crc_model)] + transport_model(), max_depth=6)
@@ -576,6 +578,7 @@ def r02_2(ctx):
     XON/XOFF -> only that byte removed; no reserved byte -> buffer untouched. In discarding mode: no FLAG ->
     buffer cleared, mode kept, nothing scanned; FLAG -> mode cleared and only the part after the first FLAG kept.
     Upward delivery happens only with the frame returned by parse_frame on the unstuffed bytes."""
+    anchor_attrs(ctx, "AshProtocol", "_buffer", "_discarding_until_next_flag", "_rx_seq")
     repo = ctx.repo
     f = repo.func(RECV)
     ctx.fn(f)
@@ -743,6 +746,7 @@ def r02_4(ctx):
     """Memory bound: MAX_BUFFER_SIZE is a positive constant; for flag-free garbage of any length arriving on a
     buffer of any admissible length the buffer afterwards holds exactly the last min(total, MAX) bytes (evaluated
     on a grid around the bound), and the buffer is (re)bound only inside data_received and the initialiser."""
+    anchor_attrs(ctx, "AshProtocol", "_buffer")
     repo = ctx.repo
     MAX = const(ctx, ASH, "MAX_BUFFER_SIZE", int)
     ctx.require(0 < MAX <= 1 << 20, "MAX_BUFFER_SIZE", f"MAX_BUFFER_SIZE = {MAX}")
